@@ -219,8 +219,9 @@ def run(eng, R):
     ok = any(common.like_any(src, ["_r = %s.relative" % o, "_v = %s.error_rel if _r else %s.error" % (o, o)] + (["_o = _e['err']"] if o == "_o" else []),
                              ["_v = %s.error_rel if %s.relative else %s.error" % (o, o, o)] + (["_o = _e['err']"] if o == "_o" else [])) for o in OBJ)
     R.ob("E4", "error source:error_value", ok, (we.file, we.lineno), "write_errors_to_yaml must write the relative error values of a relative source and the absolute ones otherwise")
-    ok = any(common.like_any(src, ["_r = %s.relative" % o, "_s[-1]['matrix'] = %s.cov_mat_rel if _r else %s.cov_mat" % (o, o)] + (["_o = _e['err']"] if o == "_o" else []),
-                             ["_s[-1]['matrix'] = %s.cov_mat_rel if %s.relative else %s.cov_mat" % (o, o, o)] + (["_o = _e['err']"] if o == "_o" else [])) for o in OBJ)
+    ok = any(common.like_any(src, ["_r = %s.relative" % o, "%s['matrix'] = %s.cov_mat_rel if _r else %s.cov_mat" % (tgt, o, o)] + (["_o = _e['err']"] if o == "_o" else []),
+                             ["%s['matrix'] = %s.cov_mat_rel if %s.relative else %s.cov_mat" % (tgt, o, o, o)] + (["_o = _e['err']"] if o == "_o" else []))
+             for o in OBJ for tgt in ("_s[-1]", "_entry"))   # (written into the last entry of the section, or into the entry held in a local)
     R.ob("E4", "error source:matrix", ok, (we.file, we.lineno), "write_errors_to_yaml must write the relative covariance matrix of a relative matrix source and the absolute one otherwise")
 
     # ---------------------------------------------------------------- E5
@@ -445,7 +446,7 @@ def run(eng, R):
     # the implicit no-errors state is part of the fit: it is written as the default identifier the constructor turns back into that state
     iw = p.find_class("FitYamlWriter").find_method("_make_representation")
     isrc = common.src_of(iw.node)
-    R.ob("E5", "FitYamlWriter:implicit cost function", "if fit._implicit_no_errors: _cost_function_identifier = 'chi2'" in isrc, (iw.file, iw.lineno),
+    R.ob("E5", "FitYamlWriter:implicit cost function", isrc.like("if fit._implicit_no_errors: _cid = 'chi2'") and isrc.like("_yaml_doc['cost_function'] = "), (iw.file, iw.lineno),
          "a fit in the implicit no-errors state must be written with the default cost function identifier: written as 'chi2_no_errors' it comes back without the switch, "
          "and uncertainties added to the reloaded fit are ignored")
 
